@@ -2,7 +2,7 @@
 # Replay of a solver counterexample against the unmodified code (no shims).
 # property=C10 kernel=step label=c10:retarget_after_fall
 import sys
-sys.path[:0] = ["/repo/pulser-core", "/repo/pulser-simulation", "/verif"]
+sys.path[:0] = ['/repo' + "/pulser-core", '/repo' + "/pulser-simulation", "/verif"]
 from symx.replay import replay
-sys.exit(replay(check='checks.c10', kernel='step', shape={'own': {'clock': 1, 'local': True, 'slots': ['pulseA', 'delay'], 'mod': True, 'pj': 'derived', 'targets_a': ['q0'], 'targets_b': ['q1']}, 'op': ['add_target', 'diff'], 'maxseq': True, 'nbarriers': 1},
-                assignment={'max_sequence_duration': 4, 'own.min_duration': 1, 'own.tr': 1, 'own.min_retarget': 2, 'own.fixed_retarget': 2, 'own.s0.dur': 1, 'own.s1.dur': 1, 'buf#1.start': 0, 'buf#1.end': 1, 'buf#2.start': 0, 'buf#2.end': 0}, label='c10:retarget_after_fall'))
+sys.exit(replay(check='checks.c10', kernel='step', shape={'own': {'clock': 4, 'local': True, 'slots': ['pulseA'], 'mod': True, 'pj': 'custom', 'maxd': True, 'targets_a': ['q0'], 'targets_b': ['q1']}, 'op': ['add_target', 'diff'], 'maxseq': False, 'nbarriers': 1},
+                assignment={'own.min_duration': 2, 'own.max_duration': 4, 'own.tr': 3, 'own.pjt': 0, 'own.min_retarget': 8, 'own.fixed_retarget': 1, 'own.s0.dur/k': 1, 'buf#1.start': 0, 'buf#1.end': 2, 'buf#2.start': 0, 'buf#2.end': 0}, label='c10:retarget_after_fall'))
